@@ -58,6 +58,13 @@ def run_case(case):
     else:
         sig, conds, fam = gen.gen_base(rng, want='any',
                                        family=rng.choices(['rand', 'chain', 'indep', 'weak', 'd4'], [10, 1, 1, 4, 0.3])[0])
+    if rng.random() < 0.15:
+        # atom names that look like helper symbols an implementation might create for itself
+        from .c12 import HELPER_LIKE
+        m = dict(zip(sig, rng.sample(HELPER_LIKE, len(sig))))
+        sig = [m[a] for a in sig]
+        conds = [(fml.rename(B, m), fml.rename(A, m)) for (B, A) in conds]
+        bump('bases_with_helper_like_atom_names')
     n = len(conds)
     keys = list(range(1, n + 1))
     if rng.random() < 0.4 and n:
@@ -109,7 +116,16 @@ def run_case(case):
         unknown = uses_facts and rng.random() < 0.06
         if unknown:
             facts_ast[rng.randrange(nf)] = fml.And(fml.V('zz'), fml.V(sig[0]))
-        facts = [fml.to_text(f, 'min') if rng.random() < 0.5 else fml.to_pysmt(f) for f in facts_ast]
+        if uses_facts and not unknown and len(sig) >= 2 and rng.random() < 0.12:
+            # two different facts that are identical down to nesting depth >= 6, given as FNodes
+            (f1, _), (f2, _) = gen.deep_twins(rng, sig, [])
+            facts_ast = [f1, f2] if f1[0] != 'var' else [fml.Or(f1, fml.BOT), fml.Or(f2, fml.BOT)]
+            t1, t2 = gen.deep_twins(rng, sig, [])
+            facts_ast = [t1[1], t2[1]] if rng.random() < 0.5 else [t1[0], t2[0]]
+            facts = [fml.to_pysmt(f) for f in facts_ast]
+            bump('diagnostics_with_deep_twin_facts')
+        else:
+            facts = [fml.to_text(f, 'min') if rng.random() < 0.5 else fml.to_pysmt(f) for f in facts_ast]
         pre = {}
         if rng.random() < 0.5 and extended in real:
             pre['base_extended' if extended else 'base_standard'] = real[extended]
